@@ -196,7 +196,7 @@ fn wait_flag(flag: &AtomicBool, max: Duration) -> bool {
         }
         it += 1;
         if MIRI {
-            if it > 400 {
+            if it > 50_000 {
                 return false;
             }
         } else if it % 64 == 0 && t0.elapsed() > max {
